@@ -74,6 +74,11 @@ CHECKS = {
             "For every generated typed value sequence (all supported types and widths, extreme values, NaN/inf/-0, empty/long strings with control and non-UTF-8 bytes, raw data; both byte orders through payload_from_args, host order through the serde serializer) the fault-free configuration checks count, types, raw values and the canonical text (independent formatter), then EVERY truncation point (all up to 4 KiB, every 97th beyond) and every single-field corruption (11 type-info words, 5 length prefixes per field, 4 noar values) is decoded: intact prefix, stop at structurally invalid fields, slices inside the payload, no panic. Value sequences are sampled; faults per sequence are enumerated.",
             "Second-weakest fit (pure codec in the fault-free half); corruptions that yield another well-formed list only have to keep the preceding arguments intact.",
             "DESIGN.md §6 C18"),
+    "C19": ("pipesim", "exploration",
+            "deterministic simulation: plugin-shaped simulated traffic through the real plugin stage as a shuttle thread between bounded channels; anonymiser + lifecycle detection on both traces",
+            "Seeded search over (plugins) simulated traffic where half of the messages are shaped to hit the decoders (FIBEX non-verbose frames incl. unknown ids and short payloads, SOME/IP and CAN traces with known/unknown ids and truncated headers, Muniic MMSG/MDLT, rewrite targets) x every non-empty subset and order of {non-verbose, SOME/IP, CAN, Muniic, rewrite, file transfer with keepFLDA} configured from the repository's descriptions x schedules/capacities: length, order, index, reception time, ECU, payload bytes, lifecycle, counter untouched; only text, a missing extended header and (rewrite) the timestamp may change; (anon) id populations of 1-999 ECUs/APIDs/CTIDs: pseudonym maps functional and injective per scope, times untouched, lifecycle partition/starts/ends/counts identical on both traces. Sampling, not proof.",
+            "Plugins configured from /repo/tests; export plugin and file-transfer package dropping are the stated exceptions and not part of the set.",
+            "DESIGN.md §6 C19"),
 }
 
 NOT_APPLICABLE = {
